@@ -8,6 +8,7 @@ import (
 	"os"
 	"strings"
 
+	"github.com/free5gc/go-upf/internal/verif/c07"
 	"github.com/free5gc/go-upf/internal/verif/c14"
 	"github.com/free5gc/go-upf/internal/verif/c16"
 	"github.com/free5gc/go-upf/internal/verif/c19"
@@ -26,6 +27,7 @@ var checks = map[string]func(tier string){
 	"C04": sworld.RunC04,
 	"C05": sworld.RunC05,
 	"C06": sworld.RunC06,
+	"C07": c07.RunC07,
 	"C08": sworld.RunC08,
 	"C09": sworld.RunC09,
 	"C11": sworld.RunC11,
